@@ -403,13 +403,13 @@ class C09(Prop):
         before = snaxrun.text(snaxrun.parse(src))
         passes = "set-memory-layout{tiled=%s}" % ("true" if case["tiled"] else "false")
         try:
-            with time_limit(5):          # normal run time: ~15 ms
+            with time_limit(10):         # normal run time: ~15 ms
                 out = snaxrun.run_passes(src, passes)
         except PassTimeout:
             # never call a loaded machine a non-terminating pass: confirm with a long limit (at most 3 times per process)
             if C09._confirmed_timeouts >= 3:
                 raise
-            with time_limit(40):
+            with time_limit(120):
                 try:
                     out = snaxrun.run_passes(src, passes)
                 except PassTimeout:
